@@ -89,7 +89,8 @@ func (st Stream) Cut(limit int) (k int, extra string) {
 		}
 		k++ // Brk
 		for _, u := range s.Units {
-			if len(u.B) <= left {
+			// character data is complete only once the byte after it (a '<') has arrived
+			if len(u.B) < left || (len(u.B) == left && !u.Text) {
 				k += len(u.Toks)
 				left -= len(u.B)
 				continue
